@@ -776,3 +776,66 @@ def rule_shm_inproc(ctx, cfg, F):
                     else:
                         R.violate("%s:inproc-coupling" % strip_generics(f.path), "pointer/length are not derived from the Arc<Vec<u8>> stored in the region", f.path, f.loc(b, si), config=cfg)
     R.count("inproc_constructions[%s]" % cfg, n)
+
+
+def _upvar_origin(F, f, root, depth=0):
+    """for a root that is a closure capture (param 1, field k): the roots of the captured operand in the parent"""
+    if f.kind != "Closure" or root.kind != "param" or root.id != 1 or not root.field_idx() or depth > 3:
+        return None, None
+    parent = F.fns.get(f.parent)
+    if not parent:
+        return None, None
+    k = root.field_idx()[0]
+    trp = Tracer(parent)
+    for b in parent.live_blocks():
+        for st in parent.stmts(b):
+            if st["s"] == "assign" and st["rv"]["r"] == "agg" and st["rv"]["kind"].get("closure") == f.path and k < len(st["rv"]["a"]):
+                rs = trp.roots_of_operand(st["rv"]["a"][k])
+                out = set()
+                for r in rs:
+                    pf, pr = _upvar_origin(F, parent, r, depth + 1)
+                    if pr is not None:
+                        out |= {(pf, x) for x in pr}
+                    else:
+                        out.add((parent, r))
+                return parent, {x[1] for x in out} if all(x[0] is parent for x in out) else {x[1] for x in out}
+    return None, None
+
+
+def rule_buf_fresh(ctx, cfg, F):
+    R = ctx.rule("BUF-FRESH", "the byte vector a message is serialised into is created empty for that send (Vec::new / with_capacity in the same call) or cleared on every path before "
+                 "serialisation: bytes left over from an earlier (failed) send can never prefix a later message")
+    n = 0
+    for f in sorted(F.fns.values(), key=lambda x: x.path):
+        if not (f.path.startswith("ipc::") or f.path.startswith("<ipc::")):
+            continue
+        tr = None
+        for b, t in f.calls():
+            nm = strip_generics(callee_name(t))
+            if nm not in ("bincode::serialize_into",):
+                continue
+            n += 1
+            tr = tr or Tracer(f)
+            roots = tr.roots_of_operand(t["args"][0])
+            fresh, why = True, []
+            for r in roots:
+                origin = [r]
+                pf, pr = _upvar_origin(F, f, r)
+                if pr is not None:
+                    origin = list(pr)
+                for o in origin:
+                    if o.kind == "call" and o.id in ("std::vec::Vec::with_capacity", "std::vec::Vec::new"):
+                        continue
+                    fresh = False
+                    why.append(repr(o))
+            cleared = False
+            if not fresh:
+                for b2, t2 in f.calls_to("std::vec::Vec::clear"):
+                    if {r.key() for r in tr.roots_of_operand(t2["args"][0])} == {r.key() for r in roots} and f.dominates(b2, b):
+                        cleared = True
+            if fresh or cleared:
+                R.ok("%s serialises into %s" % (f.path, "a vector created in this call" if fresh else "a vector cleared before use"), f.loc(b), cfg)
+            else:
+                R.violate("%s:stale-serialisation-buffer" % strip_generics(f.path), "the buffer handed to bincode::serialize_into is neither created in this call nor cleared on every path before use (%s): "
+                          "bytes of an earlier message whose send failed would be transmitted in front of the next one" % ", ".join(sorted(set(why)))[:160], f.path, f.loc(b), config=cfg)
+    R.count("serialise_calls[%s]" % cfg, n)
